@@ -16,15 +16,46 @@ Fmt(name) == CASE name = "B" -> <<F("B", 1)>>
                [] name = "H2xH" -> <<F("H", 1), F("x", 2), F("H", 1)>>
                [] name = "4x" -> <<F("x", 4)>>
                [] name = "8s" -> <<F("s", 8)>>
-               [] name = "BI" -> <<F("B", 1), F("I", 1)>>
-               [] name = "3sB" -> <<F("s", 3), F("B", 1)>>
+               [] name = "bh" -> <<F("b", 1), F("h", 1)>>          \* signed integers
+               [] name = "iq" -> <<F("i", 1), F("q", 1)>>
+               [] name = "QlL" -> <<F("Q", 1), F("l", 1), F("L", 1)>>
+               [] name = "e" -> <<F("e", 1)>>                      \* floating point
+               [] name = "f" -> <<F("f", 1)>>
+               [] name = "Hd" -> <<F("H", 1), F("d", 1)>>
+               [] name = "?c" -> <<F("?", 1), F("c", 1)>>          \* bool, char
+               [] name = "5p" -> <<F("p", 5)>>                     \* Pascal string
 
-BTab == <<<<0, 0>>, <<1, 0>>, <<127, 0>>, <<128, 0>>, <<255, 0>>, <<90, 0>>>>
-HTab == <<<<258, 0>>, <<0, 0>>, <<32767, 0>>, <<32768, 0>>, <<65535, 0>>>>
-ITab == <<<<772, 258>>, <<0, 0>>, <<65535, 32767>>, <<0, 32768>>, <<65535, 65535>>, <<1, 0>>>>
+(* values: boundary tables per field code, rotated by the running value index *)
+U(l0, l1, l2, l3) == IntItem(0, <<l0, l1, l2, l3>>)
+N(l0, l1, l2, l3) == IntItem(1, <<l0, l1, l2, l3>>)
+Fl(s, e, bits) == Item("float", s, e, bits)
+BTab == <<U(0, 0, 0, 0), U(1, 0, 0, 0), U(127, 0, 0, 0), U(128, 0, 0, 0), U(255, 0, 0, 0), U(90, 0, 0, 0)>>
+HTab == <<U(258, 0, 0, 0), U(0, 0, 0, 0), U(32767, 0, 0, 0), U(32768, 0, 0, 0), U(65535, 0, 0, 0)>>
+ITab == <<U(772, 258, 0, 0), U(0, 0, 0, 0), U(65535, 32767, 0, 0), U(0, 32768, 0, 0),
+          U(65535, 65535, 0, 0), U(1, 0, 0, 0)>>
+QTab == <<U(2055, 1541, 1027, 513), U(65535, 65535, 65535, 65535), U(0, 0, 0, 32768), U(0, 0, 1, 0)>>
+SbTab == <<N(1, 0, 0, 0), U(127, 0, 0, 0), N(128, 0, 0, 0), U(0, 0, 0, 0), N(90, 0, 0, 0)>>
+ShTab == <<N(2, 0, 0, 0), U(32767, 0, 0, 0), N(32768, 0, 0, 0), U(258, 0, 0, 0), N(1, 0, 0, 0)>>
+SiTab == <<N(1, 0, 0, 0), U(65535, 32767, 0, 0), N(0, 32768, 0, 0), U(772, 258, 0, 0), N(772, 258, 0, 0)>>
+SqTab == <<N(1, 0, 0, 0), U(65535, 65535, 65535, 32767), N(0, 0, 0, 32768), N(2055, 1541, 1027, 513),
+           U(0, 0, 1, 0)>>
+(* 1.5, 0.5, -2.25, 1000.5, +0, -0, +inf, 65504 (largest binary16), 2^-14, -0.25, -inf *)
+ETab == <<Fl(0, 0, <<1, 1>>), Fl(0, -1, <<1>>), Fl(1, 1, <<1, 0, 0, 1>>),
+          Fl(0, 9, <<1, 1, 1, 1, 1, 0, 1, 0, 0, 0, 1>>), Item("fzero", 0, 0, <<>>),
+          Item("fzero", 1, 0, <<>>), Item("finf", 0, 0, <<>>), Fl(0, 15, Ones(11)),
+          Fl(0, -14, <<1>>), Fl(1, -2, <<1>>), Item("finf", 1, 0, <<>>)>>
+FTab == ETab \o <<Fl(0, 23, Ones(24)), Fl(1, 100, <<1, 0, 1>>), Fl(0, -126, <<1, 1>>), Fl(0, 127, Ones(24))>>
+DTab == FTab \o <<Fl(0, 52, Ones(53)), Fl(1, -1000, <<1, 0, 1>>), Fl(0, 1023, Ones(53)), Fl(0, -1022, <<1>>)>>
 Pick(tab, i) == tab[(i % Len(tab)) + 1]
-Val(f, j) == CASE f.c = "B" -> Pick(BTab, j) [] f.c = "H" -> Pick(HTab, j) [] f.c = "I" -> Pick(ITab, j)
-               [] f.c = "s" -> [i \in 1 .. f.n |-> (16 * j + 3 * i) % 256]
+Val(f, j) == CASE f.c = "B" -> Pick(BTab, j) [] f.c = "H" -> Pick(HTab, j)
+               [] f.c \in {"I", "L"} -> Pick(ITab, j) [] f.c = "Q" -> Pick(QTab, j)
+               [] f.c = "b" -> Pick(SbTab, j) [] f.c = "h" -> Pick(ShTab, j)
+               [] f.c \in {"i", "l"} -> Pick(SiTab, j) [] f.c = "q" -> Pick(SqTab, j)
+               [] f.c = "e" -> Pick(ETab, j) [] f.c = "f" -> Pick(FTab, j) [] f.c = "d" -> Pick(DTab, j)
+               [] f.c = "?" -> Item("bool", j % 2, 0, <<>>)
+               [] f.c = "c" -> BytesItem(<<(65 + 7 * j) % 256>>)
+               [] f.c = "s" -> BytesItem([i \in 1 .. f.n |-> (16 * j + 3 * i) % 256])
+               [] f.c = "p" -> BytesItem([i \in 1 .. (j % f.n) |-> (97 + j + i) % 256])
 RECURSIVE Vals(_, _, _, _)
 Vals(fmt, i, j, acc) == IF i > Len(fmt) THEN acc
                         ELSE IF HasValue(fmt[i]) THEN Vals(fmt, i + 1, j + 1, Append(acc, Val(fmt[i], j)))
